@@ -185,7 +185,7 @@ class Ctx:
 
     def _write_replay(self, v):
         h = hashlib.sha1(v["sig"].encode()).hexdigest()[:12]
-        d = os.path.join(VERIF, "replays", self.prop, h)
+        d = os.path.join(VERIF, "replays" if not os.environ.get("VERIF_NO_EVIDENCE") else "replays/mutant", self.prop, h)
         shutil.rmtree(d, ignore_errors=True)
         os.makedirs(d)
         for name, content in v["files"].items():
@@ -223,7 +223,10 @@ class Ctx:
               "coverage": cov, "assumptions": self.assumptions, "wall_s": round(wall, 2),
               "violations": len(confirmed)}
         os.makedirs(os.path.join(VERIF, "evidence"), exist_ok=True)
-        with open(os.path.join(VERIF, "evidence", self.prop + ".json"), "w") as f:
+        evdir = os.path.join(VERIF, "evidence")
+        if os.environ.get("VERIF_NO_EVIDENCE"):      # mutant runs must not overwrite the committed evidence
+            evdir = self.work
+        with open(os.path.join(evdir, self.prop + ".json"), "w") as f:
             json.dump(ev, f, indent=1, default=str)
         for pat, n in sorted(self.known_hit.items()):
             print("KNOWN-FINDING: property=%s %s (%d cases)" % (self.prop, pat, n))
